@@ -6,7 +6,7 @@ import hexlib
 from common import hx
 
 ID = "C01"
-LEAN_IMPORTS = ["PyTrie.Props.C01", "PyTrie.Props.C01World", "PyTrie.Props.RawLevel", "PyTrie.Props.NonVacuity"]
+LEAN_IMPORTS = ["PyTrie.Props.C01", "PyTrie.Props.C01World", "PyTrie.Props.RawLevel", "PyTrie.Props.NonVacuity", "PyTrie.Props.NonVacuity2"]
 THEOREMS = [
     "PyTrie.Props.C01.get_set",
     "PyTrie.Props.C01.get_delete",
@@ -31,6 +31,9 @@ THEOREMS = [
     "PyTrie.Props.NonVacuity.t1_storedD",
     "PyTrie.Props.Raw.history_is_world_run",
     "PyTrie.Props.Raw.history_get",
+    "PyTrie.Props.NonVacuity2.raw_history_is_world_run",
+    "PyTrie.Props.NonVacuity2.raw_history_get",
+    "PyTrie.Props.NonVacuity2.rawRun_hist",
 ]
 RULE = ("histories of set/setitem/set-to-empty/delete/delitem and squash_changes batches (committed and aborted) "
         "over crafted and random prefix-sharing key universes (empty key, prefixes, extensions, mid-path "
